@@ -60,7 +60,12 @@ class _AbortShrink(BaseException):
 
 
 class Hang(BaseException):
-    """Raised by the per-evaluation alarm."""
+    """Raised by the per-evaluation alarm. `where` names the innermost frame under REPO/selfies that was
+    executing when the alarm fired (None if the time was being spent in the harness itself)."""
+
+    def __init__(self, where=None):
+        super().__init__(where)
+        self.where = where
 
 
 # --------------------------------------------------------------------------------------------
@@ -232,7 +237,7 @@ class Ctx:
         self.scale = scale
         self.shrink_calls = 4000 if tier == "quick" else 20000
         self.shrink_s = 60 if tier == "quick" else 240
-        self.eval_timeout = getattr(module, "EVAL_TIMEOUT", 120 if tier == "quick" else 300)
+        self.eval_timeout = getattr(module, "EVAL_TIMEOUT", 60 if tier == "quick" else 300)
 
     # -- sizing
     def n(self, quick, thorough):
@@ -255,7 +260,10 @@ class Ctx:
             finally:
                 signal.setitimer(signal.ITIMER_REAL, 0)
                 signal.signal(signal.SIGALRM, old)
-        except Hang:
+        except Hang as h:
+            if h.where:
+                # the call into selfies did not come back: every property presupposes that translation calls return
+                return Result(Fail("no_result_within_%ds@%s" % (self.eval_timeout, h.where), case=jdump(case)[:1500]))
             raise HarnessError("evaluation exceeded %d s on case %s" % (self.eval_timeout, jdump(case)[:2000]))
         except HarnessError:
             raise
@@ -348,7 +356,16 @@ class Ctx:
 
 
 def _alarm(signum, frame):
-    raise Hang()
+    where = None
+    f = frame
+    sdir = os.path.join(REPO, "selfies") + os.sep
+    while f is not None:
+        fn = f.f_code.co_filename
+        if fn.startswith(sdir):
+            where = "%s.%s" % (os.path.splitext(os.path.basename(fn))[0], f.f_code.co_name)
+            break
+        f = f.f_back
+    raise Hang(where)
 
 
 # --------------------------------------------------------------------------------------------
